@@ -13,6 +13,7 @@ Case lines (shared with harness/c04/c04.c):
   ev p main                                   one driver-started evaluation of the program
   sz <constructor> <args...>                  one size decision
 
+(the generator emits one LPC function per node, so every node is a `call` around its construct)
 shape terms:  K | W<n> | S | R<locals> | X | F<locals>(<t>) | C(<t>) | B<k>(<t>) | A(<t>) | Q(<t>,<t>) | E | T
 -/
 import NV.Common.Proto
@@ -37,12 +38,15 @@ def parseSh : Nat → List Char → Option (Sh × List Char)
   | 0, _ => none
   | f + 1, cs =>
     match cs with
-    | 'K' :: r => some (.skip, r)
-    | 'S' :: r => some (.spin, r)
+    | 'K' :: r => some (.call 0 .skip, r)
+    | 'S' :: r => some (.call 0 .spin, r)
     | 'X' :: r => some (.crecur, r)
-    | 'E' :: r => some (.err, r)
-    | 'T' :: r => some (.throw_, r)
-    | 'W' :: r => let (d, r) := takeDigits r; some (.work (natOf d), r)
+    | 'E' :: r => some (.call 0 .err, r)
+    | 'T' :: r => some (.call 0 .throw_, r)
+    | 'W' :: r => let (d, r) := takeDigits r; some (.call 0 (.work (natOf d)), r)
+    -- N<k>: an efun making k callbacks to a function that does not exist (map_array (allocate (k), "nosuch", ob)):
+    -- no frame, no code, one tick per callback charged by call_efun_callback - the same as k instructions
+    | 'N' :: r => let (d, r) := takeDigits r; some (.call 0 (.work (natOf d)), r)
     | 'R' :: r => let (d, r) := takeDigits r; some (.recur (natOf d), r)
     | 'F' :: r =>
       let (d, r) := takeDigits r
@@ -55,25 +59,29 @@ def parseSh : Nat → List Char → Option (Sh × List Char)
       let (d, r) := takeDigits r
       (match r with
        | '(' :: r => (match parseSh f r with
-                      | some (b, ')' :: r) => some (.cb (natOf d) b, r)
+                      | some (b, ')' :: r) => some (.call 0 (.cb (natOf d) b), r)
                       | _ => none)
        | _ => none)
     | 'C' :: '(' :: r =>
       (match parseSh f r with
-       | some (b, ')' :: r) => some (.catch_ b, r)
+       | some (b, ')' :: r) => some (.call 0 (.catch_ b), r)
        | _ => none)
     | 'A' :: '(' :: r =>
       (match parseSh f r with
-       | some (b, ')' :: r) => some (.safe b, r)
+       | some (b, ')' :: r) => some (.call 0 (.safe b), r)
        | _ => none)
     | 'Q' :: '(' :: r =>
       (match parseSh f r with
        | some (a, ',' :: r) =>
          (match parseSh f r with
-          | some (b, ')' :: r) => some (.seq a b, r)
+          | some (b, ')' :: r) => some (.call 0 (.seq a b), r)
           | _ => none)
        | _ => none)
     | _ => none
+
+/-- the largest k of an `N<k>` node in a shape term (callbacks that execute no instruction) -/
+def noCodeOf (t : String) : Nat :=
+  ((t.splitOn "N").drop 1).foldl (fun m part => max m (natOf (takeDigits part.toList).1)) 0
 
 def parseShape (s : String) : Option Sh :=
   match parseSh (s.length + 1) s.toList with
@@ -229,7 +237,9 @@ def parseLine (mode : Bool) (p : Parsed) (line : String) : Parsed :=
   | ["mset", "set_handler_catches", v] => { p with lim := { p.lim with handlerCatches := v != "0" } }
   | ["shape", t] =>
     match parseShape t with
-    | some sh => { p with shape := sh, lim := { p.lim with hasSafe := sh.hasSafe, catchDepth := sh.catchDepth } }
+    | some sh =>
+      let lim := { p.lim with hasSafe := sh.hasSafe, catchDepth := sh.catchDepth, noCodeCallbacks := noCodeOf t }
+      { p with shape := sh, lim := lim }
     | none => { p with bad := line :: p.bad }
   | ["ev", _, _] => if mode then { p with out := (runEv p).reverse ++ p.out } else p
   | "sz" :: ctor :: args =>
